@@ -45,6 +45,13 @@ ALIASES = [
     (r'std::atomic_bool', 'std::atomic<bool>'),
     (r'std::__atomic_base<int>', 'std::atomic<int>'),
     (r'std::__atomic_base<bool>', 'std::atomic<bool>'),
+    (r'std::__atomic_base<unsigned short>', 'std::atomic<unsigned short>'),
+    (r'std::__atomic_base<short>', 'std::atomic<short>'),
+    (r'std::__atomic_base<unsigned char>', 'std::atomic<unsigned char>'),
+    (r'std::__atomic_base<signed char>', 'std::atomic<signed char>'),
+    (r'std::__atomic_base<unsigned int>', 'std::atomic<unsigned int>'),
+    (r'std::__atomic_base<long>', 'std::atomic<long>'),
+    (r'std::__atomic_base<unsigned long>', 'std::atomic<unsigned long>'),
 ]
 
 
